@@ -106,6 +106,13 @@ Section C06.
     - intro t. exact (ids_bounded_lemma SC DET JD REC sc0 prep write V batches lazy voting_threads_exist sigma st t H).
     - intros l st'. exact (counter_step_lemma SC DET JD REC prep write V batches lazy st l st').
   Qed.
+
+  (* The job queues of the voting threads are unbounded in the model: while predict dispatches the scenes of a
+     batch its next step is always enabled, however many jobs are queued. (A bounded queue in the implementation
+     is a refinement failure only the correspondence runs can expose.) *)
+  Theorem dispatch_never_blocks :
+    forall lazy st b rest i, pc st = MDisp b rest i -> exists st', FIRE lazy st BMain = Some st'.
+  Proof. intro lazy. exact (dispatch_never_blocks_lemma SC DET JD REC prep write V batches lazy). Qed.
 End C06.
 
 (* The proviso is needed: if the caller retrieves results only after it has submitted everything, a batch of
